@@ -1,7 +1,7 @@
 ----------------------------- MODULE MC_Chart -----------------------------
-(* Model-checking wrapper of Chart.tla: finite universes (record / function *)
-(* constants cannot be written in a .cfg).                                  *)
-EXTENDS Chart
+(* Model-checking wrapper of ChartGen.tla (Chart.tla): finite universes        *)
+(* (record / function constants cannot be written in a .cfg).               *)
+EXTENDS ChartGen
 
 MCFixed    == {"a", "7", "world"}
 MCVar1     == {"$v"}
